@@ -217,6 +217,7 @@ int setup_routing_information(struct element *e, const cJSON *request, const cJS
 	struct value_route_table val;
 	val.vals[0] = routing_request;
 	if (unlikely(HASHTABLE_PUT(route_table, e->peer->routing_table, routing_request->id, val, NULL) != HASHTABLE_SUCCESS)) {
+		cjet_timer_destroy(&routing_request->timer);
 		*response = create_error_response_from_request(routing_request->requesting_peer, request, INTERNAL_ERROR, "reason", "routing table full");
 		return -1;
 	}
@@ -224,6 +225,7 @@ int setup_routing_information(struct element *e, const cJSON *request, const cJS
 	int ret = routing_request->timer.start(&routing_request->timer, timeout_ns, request_timeout_handler, routing_request);
 	if (unlikely(ret < 0)) {
 		HASHTABLE_REMOVE(route_table, e->peer->routing_table, routing_request->id, NULL);
+		cjet_timer_destroy(&routing_request->timer);
 		*response = create_error_response_from_request(routing_request->requesting_peer, request, INTERNAL_ERROR, "reason", "could not start timer for routing request");
 		return -1;
 	}
@@ -308,6 +310,7 @@ static void clear_routing_entry(struct value_route_table *val)
 	if (unlikely(request->timer.cancel(&request->timer) < 0)) {
 		log_peer_err(request->requesting_peer, "Could not cancel request timer when clearing routing entry!\n");
 	}
+	cjet_timer_destroy(&request->timer);
 
 	send_shutdown_response(request->requesting_peer, request->origin_request_id);
 	cJSON_Delete(request->origin_request_id);
